@@ -56,7 +56,8 @@ structure Client where
   wasChanged : Bool
   modified : Rgn
   requested : Rgn
-  pic : Array Px            -- the client's picture
+  pic : Array Px            -- the client's picture (pixels in the client's format)
+  tfmt : Option (Format × Nat)   -- SetPixelFormat: `none` = the server's format; else (format, bytes/pixel)
   deriving Repr
 
 structure Sess where
@@ -72,14 +73,15 @@ inductive ClientKind where
 
 /-- rfbNewClient, handshake, then SetEncodings [Raw] / [Raw, XCursor, PointerPos] /
 [Raw, RichCursor, PointerPos] -/
-def newClient (s : Sess) (id : Nat) (k : ClientKind) : Sess :=
+def newClient (s : Sess) (id : Nat) (k : ClientKind) (tfmt : Option (Format × Nat) := none) : Sess :=
   let W := s.scr.w
   let H := s.scr.h
   let shape := k != .raw
   let c : Client :=
     { id := id, shape := shape, useRich := k == .rich, posUpd := shape,
       curX := s.scr.curX, curY := s.scr.curY, wasMoved := shape, wasChanged := shape,
-      modified := Rgn.full W H, requested := Rgn.empty W H, pic := Array.replicate (W * H) 0 }
+      modified := Rgn.full W H, requested := Rgn.empty W H, pic := Array.replicate (W * H) 0,
+      tfmt := tfmt }
   { s with clients := c :: s.clients }
 
 /-- PointerEvent from client `id` (deferPtrUpdateTime = 0, not view-only) -/
@@ -140,10 +142,14 @@ def pending (s : Sess) (c : Client) : Bool :=
   (!c.shape && (c.curX != s.scr.curX || c.curY != s.scr.curY)) ||
   (c.posUpd && c.wasMoved) || c.modified.nonempty
 
-/-- what the client decodes from the Raw rectangles covering `upd` -/
-def picUpdate (W H : Nat) (upd : Rgn) (fb pic : Array Px) : Array Px :=
+/-- how pixels go to client `c` of a screen -/
+def Client.wire (scr : Screen) (c : Client) : Wire :=
+  { tr := transPx scr.fmt c.tfmt, bpp := match c.tfmt with | none => scr.bpp | some (_, b) => b }
+
+/-- what the client decodes from the Raw rectangles covering `upd` (pixels translated by `tr`) -/
+def picUpdate (W H : Nat) (upd : Rgn) (tr : Px → Px) (fb pic : Array Px) : Array Px :=
   Array.ofFn (n := W * H) fun k =>
-    if upd.mem W (k.val % W) (k.val / W) then (fb[k.val]?).getD 0 else (pic[k.val]?).getD 0
+    if upd.mem W (k.val % W) (k.val / W) then tr ((fb[k.val]?).getD 0) else (pic[k.val]?).getD 0
 
 /-- observations of one rfbSendFramebufferUpdate -/
 structure UpdObs where
@@ -159,6 +165,7 @@ structure UpdObs where
   pos : Option (List UInt8)
   upd : Rgn
   pic : Array Px
+  cbpp : Nat                -- the client's bytes per pixel
 
 def removeClient (s : Sess) (id : Nat) : Sess :=
   { s with clients := s.clients.filter (fun c => c.id != id),
@@ -196,7 +203,7 @@ def updRegion (s : Sess) (c : Client) : Rgn :=
 Result: the screen while the update is encoded, the screen afterwards, the shape rectangle. -/
 def bracket (v : Variant) (s : Sess) (c : Client) : Option (Screen × Screen × Option (List UInt8)) :=
   (if c.shape then some s.scr else showCursor v s.scr (updCurX s c) (updCurY s c)).bind fun scr1 =>
-  (if c.shape && c.wasChanged then (cursorShapeRect v scr1 c.useRich).map fun (sc, m) => (sc, some m)
+  (if c.shape && c.wasChanged then (cursorShapeRect v scr1 (c.wire s.scr) c.useRich).map fun (sc, m) => (sc, some m)
    else some (scr1, none)).bind fun (scr2, shapeMsg) =>
   (if c.shape then some scr2 else hideCursor v scr2 (updCurX s c) (updCurY s c)).map fun scr3 =>
     (scr2, scr3, shapeMsg)
@@ -208,7 +215,7 @@ def clientAfter (s : Sess) (c : Client) (fbSent : Array Px) : Client :=
            wasMoved := if c.posUpd && c.wasMoved then false else c.wasMoved,
            modified := Rgn.sub s.scr.w s.scr.h c.modified (Rgn.and s.scr.w s.scr.h c.modified c.requested),
            requested := Rgn.empty s.scr.w s.scr.h,
-           pic := picUpdate s.scr.w s.scr.h (updRegion s c) fbSent c.pic }
+           pic := picUpdate s.scr.w s.scr.h (updRegion s c) (c.wire s.scr).tr fbSent c.pic }
 
 /-- rfbUpdateClient → rfbSendFramebufferUpdate(cl, cl->modifiedRegion) for client `c` of `s`.
 `none` = an out-of-bounds access in show/hide or a failed cursor conversion.
@@ -223,7 +230,7 @@ def sendUpdate (v : Variant) (s : Sess) (c : Client) : Option (Sess × Option Up
       { id := c.id, res := !fails, before := s.scr.fb, painted := scr2.fb, after := scr3.fb,
         curX := c'.curX, curY := c'.curY, ucl := scr2.underLen,
         shape := shapeMsg, pos := if c.posUpd && c.wasMoved then some (cursorPosRect scr2) else none,
-        upd := updRegion s c, pic := c'.pic }
+        upd := updRegion s c, pic := c'.pic, cbpp := (c.wire s.scr).bpp }
     if fails then
       ({ removeClient { s with scr := scr3 } c.id with failArmed := none }, some obs)
     else
@@ -253,7 +260,7 @@ def Cursor.wfb (c : Cursor) : Bool :=
 /-- the operations of a session; ill-formed ones (duplicate client id, rectangle outside the
 screen, ill-formed cursor) are ignored, as the harness answers `bad-op` -/
 inductive Op where
-  | client (id : Nat) (k : ClientKind)
+  | client (id : Nat) (k : ClientKind) (tfmt : Option (Format × Nat))
   | ptr (id x y buttons : Nat)
   | req (id : Nat) (incr : Bool) (r : Rect)
   | draw (r : Rect) (val : Nat → Nat → Px)
@@ -265,7 +272,7 @@ def Rect.inside (r : Rect) (W H : Nat) : Bool :=
   decide (r.x1 < r.x2) && decide (r.y1 < r.y2) && decide (r.x2 ≤ W) && decide (r.y2 ≤ H)
 
 def applyOp (v : Variant) (s : Sess) : Op → Option Sess
-  | .client id k => if s.clients.any (fun c => c.id == id) then some s else some (newClient s id k)
+  | .client id k t => if s.clients.any (fun c => c.id == id) then some s else some (newClient s id k t)
   | .ptr id x y b => if s.clients.any (fun c => c.id == id) then some (ptrEvent s id x y b) else some s
   | .req id incr r => if r.inside s.scr.w s.scr.h then some (request s id incr r) else some s
   | .draw r val => if r.inside s.scr.w s.scr.h then draw s r val else some s
